@@ -5,6 +5,7 @@ package main
 // agreement, index/length facts, nil facts, grammar operator/value pairing).
 
 import (
+	"os"
 	"fmt"
 	"go/constant"
 	"go/token"
@@ -1333,6 +1334,11 @@ func (c *c09ctx) nilDeref(f *ssa.Function, st *pstate, ins ssa.Instruction, b *S
 		return // locals, addresses, parameters (callers' obligation), asserted tree nodes
 	}
 	name := f.Name() + ":deref:" + shortDesc(v)
+	// a syntax-tree node held in a field of a parameter (the operands of a matcher written as a method): like the node
+	// parameters themselves, non-nil for parser-built trees (stated assumption)
+	if b.K == sField && b.A != nil && b.A.K == sParam && c.isExprNodePtr(v.Type()) {
+		return
+	}
 	if b.K == sLoad && b.A.K == sFree {
 		if fv, ok := b.A.V.(*ssa.FreeVar); ok && capturedParam(fv) {
 			return // a parameter of the enclosing function captured by the closure: the callers' obligation, as for the parameter itself
@@ -1494,7 +1500,7 @@ func checkPanicSites(r *Run, prog *Program, a *Anchors, pfx string, roots map[*s
 				c.analyseFunc(f)
 			}
 		}
-		if round == 3 {
+		if round == 3 || os.Getenv("VERIF_C09_NOCTX") != "" {
 			break
 		}
 		more := false
@@ -1776,4 +1782,22 @@ func onlyCalledAsValue(prog *Program, fn *ssa.Function) bool {
 		}
 	}
 	return true
+}
+
+// isExprNodePtr: *T for a struct type T of package grammar whose pointer implements grammar.Expression.
+func (c *c09ctx) isExprNodePtr(t types.Type) bool {
+	p, ok := t.Underlying().(*types.Pointer)
+	if !ok {
+		return false
+	}
+	n, ok := p.Elem().(*types.Named)
+	if !ok || n.Obj().Pkg() == nil || n.Obj().Pkg().Path() != grammarPath {
+		return false
+	}
+	et := c.prog.grammarType("Expression")
+	if et == nil {
+		return false
+	}
+	iface, ok := et.Underlying().(*types.Interface)
+	return ok && types.Implements(t, iface)
 }
